@@ -233,7 +233,6 @@ scpi_bool_t SCPI_Parse(scpi_t * context, char * data, int len) {
                 SCPI_VERIF_EV(context, SCPI_VE_UNIT_BEGIN, state->programHeader.ptr, state->programHeader.len, context->param_list.cmd - context->cmdlist);
                 result &= processCommand(context);
                 SCPI_VERIF_EV(context, SCPI_VE_UNIT_END, NULL, result, 0);
-                cmd_prev = state->programHeader;
             } else {
                 /* place undefined header with error */
                 /* calculate length of errorenous header and trim \r\n */
@@ -243,6 +242,8 @@ scpi_bool_t SCPI_Parse(scpi_t * context, char * data, int len) {
                 SCPI_ErrorPushEx(context, SCPI_ERROR_UNDEFINED_HEADER, data, r2);
                 result = FALSE;
             }
+            /* the header path is taken from every unit, also from an undefined one */
+            cmd_prev = state->programHeader;
         }
 
         if (r < len) {
